@@ -1,6 +1,49 @@
 import Sessions.Proofs.Global.Faulty11Ops
+import Sessions.Proofs.Global.Own01
+import Sessions.Proofs.Global.Faulty11Store
+import Sessions.Proofs.Global.Faulty11Sim
 /-!
-# C11 / C09 with store faults — histories
+# C11 "store failures are reported, never turned into silent loss or logout" and the fault side of C09
+# — theorems over ALL histories, EVERY fault placement (namespace `Sx.Glob`)
+
+Files: `Faulty11Ops` (structural invariant, every model function, every oracle), `Faulty11Store` (the store follows the
+events, every oracle), `Faulty11Sim` (a run that shows no failure event is the fault-free run), this file (histories).
+
+## the statements
+
+* §1 **`sinv_step`, `sinv_all_histories`, `sinv_every_boundary`** — `WSInv` (= `SInv` of the state + codec + the request's
+  handle is allocated) holds at every boundary of every history, for every `Orc` (any `fails`, any `picks`), every `Op`
+  but a codec switch. Nothing is assumed of `picks`, of presented cookies, of `LogOut(uid)`/`RefreshUser` placement, of
+  crash points. `SInv.spelled_out`. Finding: `Inv.wf` is NOT structural (`wf_fails_under_faults`, `wfB` guards).
+* §2 **`c09_ack_saved_global`** (+ `c09_created_saved_global`, model level `hRun_ack_saved`, `createNew_ack_saved`,
+  `hlogin_ok_saved'`) — at every boundary of every history with faults, a `Set`/`Delete`/`LogOut()`/`LogIn`/`RegenerateID`
+  that answers `ok` has left, at the next boundary, the record under the session's id EQUAL to the encoding of the
+  session object (`Saved`), whatever failed before: success of a changing call cleans its id.
+* §3 (every state, every oracle) `start_failed_load_quiet` — a `Start` that shows a failed load returns an error, deletes
+  nothing, sends no cookie, mints no id; `start_del_cases` — a `Start` that deletes found the object invalid or a
+  reference past its grace; event classes `AllB isLoadFail/isDel/isCookie`, `SaveOnly`.
+* §4 **`c11_no_silent_loss`** (a record in the store before a step is in the store after it unless the step's transcript
+  shows a successful `.del k`/`.bg _ k`; no hypothesis at all), `c11_untouched`, **`c11_del_only_by_invalidation`** (only
+  `Destroy` and an invalidating/back-stop `Start` ever show a successful delete, and such a `Start` shows no failed
+  load), **`c11_failed_load_global`** (a request showing a failed load: `err`, no cookies, no delete, no session, no id
+  minted). From `Faulty11Store`: **`store_follows_events`**, `step_store_follows_events`, `step_store_frozen`,
+  `hist_store_follows_events`, **`c11_failed_call_changes_nothing`**.
+* §5 **`cohf_all_histories_partial`**, `coh_lost_only_by_shown_fault`, `c09_untainted_crash_equiv` — the full fault-free
+  invariant `WInv` (coherence, `wf`, handle invariant) holds at every boundary at which the one-bit ghost `taint` is
+  off; `taint` is set only by a step whose output shows `faulted > 0` and cleared at the next boundary with an empty
+  cache and no request session. §5.1 `pkScript`: the per-id version of this statement is FALSE in the model (and both
+  the state-based and the ghost formulation fail on the same script); what a true per-id statement must add is spelled
+  out at `cohf_all_histories_partial`.
+* §6 non-vacuity on `fxScript` (oracles with `true`: failing save, load, delete, user listing, rotation; a crash point).
+
+## hypotheses, each with its failing case
+
+* `OpOKs`/`HistOKs` (no codec switch) for §1: `codec_switch_breaks_norm`, `fxCodecScript`.
+* `c09_ack_saved_global`: `freezeAt = none` (`fxFreeze`), no clean-up of the id in `Out.bg` (`fxTimerW`, `fxTimerW_ok`);
+  `ackSaves` only excludes `LogOut()` of a session without user, which saves nothing (`Loc.hlogout_none`).
+* `HistOKf` = `OpOK` along the history (no codec switch; `SoleObject` for `LogOut(uid)`/`RefreshUser`) for §5: inherited
+  from `Sx.step_inv`, failing cases `two_objects_break_coherence`, `badScript`, `badScript2` in `Inv/Examples.lean`.
+* §3, §4: none (`c11_no_silent_loss`, `c11_del_only_by_invalidation`, `c11_failed_load_global` hold in every world).
 -/
 namespace Sx.Glob
 
@@ -329,4 +372,1199 @@ def fxCodecScript : List (Orc × Op) := [ ({}, .wait 1), ({}, .req "a" .none "" 
 #guard ((runHist idLe {} fxCodecScript).st.store.map (fun e => e.2.created)) == [1]
 #guard (runHist idLe {} fxCodecScript).cfg.codec == .json
 
+/-! ### a dead process shows nothing -/
+
+theorem step_skip_out (le : ID → ID → Bool) (w : World) (orc : Orc) (op : Op) (hsk : w.skip = true) :
+    (w.step le orc op).2.evs = [] ∧ (w.step le orc op).2.ret = none := by
+  unfold World.step
+  cases op <;> simp [hsk, finish_snd_evs, finish_snd_ret]
+
+/-! ## 2. C09 with faults: an acknowledged change is in the store (`Loc.AckSaved` lifted to every reachable state)
+
+`Loc.AckSaved` proves, for every state and oracle, that a mutator returning success has written the record; the
+theorems about `RegenerateID` and `LogIn` need structural facts ("`gen nextId` is in use nowhere"). `SInv` provides them
+at every boundary of every history with faults. -/
+
+/-- the record under the object's id is exactly the encoding of the object (stronger than agreement on `ess`) -/
+def Saved (c : Codec) (s : State) (h : Nat) : Prop := lookup (s.obj h).id s.store = some (enc c (s.obj h))
+
+theorem Saved.ess {c : Codec} {s : State} {h : Nat} (hs : Saved c s h) :
+    ∃ r, lookup (s.obj h).id s.store = some r ∧ ess (enc c (s.obj h)) = ess r := ⟨_, hs, rfl⟩
+
+/-! ### `LogIn` without the stale-index hypothesis of `Loc.hlogin_ok_saved`
+
+`Loc.hlogin_ok_saved` assumes that no stale user-index entry names the id about to be minted. That is not needed: an id
+that is neither cached nor stored cannot be loaded, so listing it changes nothing. -/
+
+theorem cacheGet_safe' (cfg : Cfg) {N : ID} {S : State} (id : ID) (hst : lookup N S.store = none) (hs : Loc.Safe N S) :
+    Loc.Safe N (cacheGet cfg S id).1 ∧ lookup N (cacheGet cfg S id).1.store = none := by
+  have sp := Loc.cacheGet_spec cfg S id
+  have hstore : lookup N (cacheGet cfg S id).1.store = none := by
+    rcases sp.store_lk N with h | ⟨x, hx, _⟩
+    · rw [h]; exact hst
+    · exact absurd hx (hs.1 x)
+  refine ⟨?_, hstore⟩
+  by_cases hid : id = N
+  · subst hid
+    have hheap : (cacheGet cfg S id).1.heap = S.heap := by
+      rcases sp.heap with h | ⟨o, _, _, _, _, r, hr, _⟩
+      · exact h
+      · rw [hst] at hr; cases hr
+    constructor
+    · intro x hx
+      rcases sp.cache_mem _ hx with h | ⟨_, h2, _⟩
+      · exact hs.1 x h
+      · rcases sp.some_valid _ h2 with ⟨hc, _, _⟩ | ⟨_, _, hlen, _⟩
+        · exact hs.1 _ (Loc.mem_of_lookup hc)
+        · rw [hheap] at hlen; omega
+    · intro x hx
+      rw [hheap] at hx
+      rw [Loc.obj_eq_of_heap hheap]; exact hs.2 x hx
+  · exact Loc.cacheGet_safe cfg hid hs
+
+theorem cacheSet_store_none (cfg : Cfg) {n : Nat} {S : State} (x : Nat) (hst : lookup (ID.gen n) S.store = none)
+    (hs : Loc.Safe (.gen n) S) : lookup (ID.gen n) (cacheSet cfg S x).1.store = none := by
+  rcases Loc.cacheSet_store_lk cfg S x (.gen n) (fun _ => (hs.obj_id_ne x).symm) with h | ⟨y, hy, _⟩
+  · rw [h]; exact hst
+  · exact absurd hy (hs.1 y)
+
+theorem setUserAll_later_safe' (cfg : Cfg) (u : Option (String × Nat)) {n : Nat} :
+    ∀ (ids : List ID) (S : State), Loc.Safe (.gen n) S → lookup (ID.gen n) S.store = none →
+      Loc.Later S (setUserAll cfg u ids S).1 ∧ Loc.Safe (.gen n) (setUserAll cfg u ids S).1
+  | [], S, hs, _ => ⟨Loc.Later.refl S, hs⟩
+  | id :: rest, S, hs, hst => by
+    have hl1 := Loc.cacheGet_later cfg S id
+    obtain ⟨hs1, hst1⟩ := cacheGet_safe' cfg id hst hs
+    rcases hG : cacheGet cfg S id with ⟨s1, res, e1⟩
+    rw [hG] at hl1 hs1 hst1
+    cases res with
+    | err => rw [Loc.setUserAll_cons_err hG]; exact ⟨hl1, hs1⟩
+    | nil =>
+      rw [Loc.setUserAll_cons_nil hG]
+      obtain ⟨a, b⟩ := setUserAll_later_safe' cfg u rest s1 hs1 hst1
+      exact ⟨hl1.trans a, b⟩
+    | some x =>
+      rw [Loc.setUserAll_cons_some hG]
+      have hl2 : Loc.Later s1 (Loc.userSet cfg u s1 x).1 := (Loc.setUser_later s1 x u).trans (Loc.cacheSet_later cfg _ x)
+      have hsu : Loc.Safe (.gen n) (s1.setObj x { s1.obj x with user := u }) := Loc.setUser_safe x u hs1
+      have hs2 : Loc.Safe (.gen n) (Loc.userSet cfg u s1 x).1 := Loc.cacheSet_safe cfg x hsu
+      have hst2 : lookup (ID.gen n) (Loc.userSet cfg u s1 x).1.store = none := cacheSet_store_none cfg x hst1 hsu
+      split
+      · exact ⟨hl1.trans hl2, hs2⟩
+      · obtain ⟨a, b⟩ := setUserAll_later_safe' cfg u rest _ hs2 hst2
+        exact ⟨(hl1.trans hl2).trans a, b⟩
+
+theorem loginPre_later_safe' (cfg : Cfg) (le : ID → ID → Bool) {n : Nat} (s : State) (h : Nat) (uid : String) (excl : Bool)
+    (hstore : lookup (ID.gen n) s.store = none) (hs : Loc.Safe (.gen n) s) :
+    Loc.Later s (Loc.loginPre cfg le s h uid excl).1 ∧ Loc.Safe (.gen n) (Loc.loginPre cfg le s h uid excl).1 := by
+  unfold Loc.loginPre
+  split
+  · unfold logoutUser
+    rw [Loc.forUser_eq]
+    have hpop : Loc.Later s s.pop := ⟨rfl, Nat.le_refl _, fun _ _ => rfl⟩
+    have hspop : Loc.Safe (.gen n) s.pop := hs
+    split
+    · exact ⟨hpop, hspop⟩
+    · obtain ⟨a, b⟩ := setUserAll_later_safe' cfg none _ s.pop hspop hstore
+      exact ⟨hpop.trans a, b⟩
+  · exact Loc.hlogout_later_safe cfg s h hs
+
+/-- **C09 / `LogIn`** as `Loc.hlogin_ok_saved`, first conjunct, without its hypothesis on the stale user index. -/
+theorem hlogin_ok_saved' (cfg : Cfg) (le : ID → ID → Bool) (s : State) (h : Nat) (uid : String) (excl : Bool)
+    (hv : h < s.heap.length) (hs : Loc.Safe (.gen s.nextId) s) (hstore : lookup (ID.gen s.nextId) s.store = none)
+    (hok : (hlogin cfg le s h uid excl).2.1 = .ok) :
+    lookup ((hlogin cfg le s h uid excl).1.obj h).id (hlogin cfg le s h uid excl).1.store =
+      some (enc cfg.codec ((hlogin cfg le s h uid excl).1.obj h)) := by
+  obtain ⟨a, b⟩ := loginPre_later_safe' cfg le s h uid excl hstore hs
+  have hl : Loc.Later s (Loc.loginSet cfg le s h uid excl).1 := by
+    unfold Loc.loginSet
+    exact (a.trans (Loc.setUser_later _ h _)).trans (Loc.cacheSet_later cfg _ h)
+  have hsafe : Loc.Safe (.gen s.nextId) (Loc.loginSet cfg le s h uid excl).1 := by
+    unfold Loc.loginSet
+    exact Loc.cacheSet_safe cfg h (Loc.setUser_safe h _ b)
+  rw [Loc.hlogin_eq] at hok ⊢
+  by_cases h1 : (Loc.loginPre cfg le s h uid excl).2.1 = false
+  · rw [if_pos h1] at hok; cases hok
+  · rw [if_neg h1] at hok ⊢
+    by_cases h2 : (Loc.loginSet cfg le s h uid excl).2.1 = false
+    · rw [if_pos h2] at hok; cases hok
+    · rw [if_neg h2] at hok ⊢
+      have hok' : (regenerate cfg (Loc.loginSet cfg le s h uid excl).1 h).2.1 = true := (Loc.hres_ok_iff _).1 hok
+      have hv3 : h < (Loc.loginSet cfg le s h uid excl).1.heap.length := Nat.lt_of_lt_of_le hv hl.len
+      have hn3 : (Loc.loginSet cfg le s h uid excl).1.nextId = s.nextId := hl.nextId
+      exact Loc.regenerate_ok_saved cfg _ h hv3 (by rw [hn3]; exact hsafe.1) (by rw [hn3]; exact hsafe.2 h hv3) hok'
+
+/-- the handler calls that change the session and acknowledge with `ok` (`LogOut()` of a session without a user
+returns `ok` without saving anything: `Loc.hlogout_none`). -/
+def ackSaves (s : State) (h : Nat) : HOp → Prop
+  | .set _ _ => True
+  | .del _ => True
+  | .regen => True
+  | .login _ _ => True
+  | .logout => (s.obj h).user ≠ none
+  | _ => False
+
+theorem hresStr_ok {r : HRes} (h : hresStr r = .str "ok") : r = .ok := by
+  cases r with
+  | ok => rfl
+  | err => exact absurd h (by decide)
+  | panic => exact absurd h (by decide)
+  | val v => simp [hresStr] at h
+  | bool b => cases b <;> exact absurd h (by decide)
+  | time t => simp [hresStr] at h
+  | user u => simp [hresStr] at h
+
+theorem boolStr_ok {b : Bool} (h : boolStr b = .str "ok") : b = true := by
+  cases b
+  · exact absurd h (by decide)
+  · rfl
+
+theorem SInv.safe {c : Codec} {s : State} (hi : SInv c s) : Loc.Safe (.gen s.nextId) s := ⟨hi.fresh.1, hi.fresh.2.1⟩
+
+/-- **model level**: in every structurally sound state, under every oracle, a session-changing handler call that
+answers `ok` leaves the record of the session equal to the encoding of the session object. -/
+theorem hRun_ack_saved {cfg : Cfg} (le : ID → ID → Bool) {s : State} (hi : SInv cfg.codec s) (hasCookie : Bool) (h : Nat)
+    (hv : h < s.heap.length) (hop : HOp) (ha : ackSaves s h hop)
+    (hret : (hRun le cfg hasCookie h hop s).2.1 = .str "ok") : Saved cfg.codec (hRun le cfg hasCookie h hop s).1 h := by
+  cases hop with
+  | set k v => exact Loc.hset_ok_saved cfg s h k v (hresStr_ok hret)
+  | del k => exact Loc.hdel_ok_saved cfg s h k (hresStr_ok hret)
+  | regen => exact Loc.regenerate_ok_saved cfg s h hv hi.fresh.1 (hi.fresh.2.1 h hv) (boolStr_ok hret)
+  | login uid excl => exact hlogin_ok_saved' cfg le s h uid excl hv hi.safe hi.fresh.2.2.1 (hresStr_ok hret)
+  | logout =>
+    cases hu : (s.obj h).user with
+    | none => exact absurd hu ha
+    | some u => exact Loc.hlogout_ok_saved cfg s h u hu (hresStr_ok hret)
+  | get k => exact absurd ha (by simp [ackSaves])
+  | getdel k => exact absurd ha (by simp [ackSaves])
+  | destroy => exact absurd ha (by simp [ackSaves])
+  | expired => exact absurd ha (by simp [ackSaves])
+  | lastaccess => exact absurd ha (by simp [ackSaves])
+  | user => exact absurd ha (by simp [ackSaves])
+
+/-- creation: `Start` answering with a NEW session has written its record (every state, every oracle) -/
+theorem createNew_ack_saved (cfg : Cfg) (s : State) (r : Req) (pre : List Ev) (h : Nat)
+    (hres : (createNew cfg s r pre).2.1 = .sess h) : Saved cfg.codec (createNew cfg s r pre).1 h := by
+  obtain ⟨_, hid, hl, _⟩ := Loc.createNew_sess_saved cfg s r pre h hres
+  unfold Saved; rw [hid]; exact hl
+
+/-! ### from the state after the call to the next boundary: the 1 ns tick -/
+
+theorem advance_snd (s : State) (d : Int) : (advance s d).2 = (fireDue s (s.now + d)).2 := rfl
+
+/-- the quiescence tick (or a `wait`) keeps the record and the cache entry of every id for which it shows no clean-up -/
+theorem advance_keeps (s : State) (d : Int) (k : ID) (hb : ∀ t, Ev.bg t k ∉ (advance s d).2) :
+    lookup k (advance s d).1.store = lookup k s.store ∧ lookup k (advance s d).1.cache = lookup k s.cache := by
+  obtain ⟨_, _, _, _, h5⟩ := More.c05_cleanup_advance s d
+  obtain ⟨_, _, _, h4, _⟩ := More.c05_cleanup_fireDue s (s.now + d)
+  have := h5 k (by
+    intro t id hm ht e
+    subst e
+    apply hb (max t s.now)
+    rw [advance_snd, h4]
+    exact List.mem_map.2 ⟨(t, id), More.c05_mem_due.mpr ⟨hm, ht⟩, rfl⟩)
+  exact ⟨this.2, this.1⟩
+
+theorem apiCall_bg (w : World) (orc : Orc) (run : State → State × RetV × Option String × List Ev) (b : Bool) :
+    (apiCall w orc run b).2.bg =
+      (advance (apiMid w (run { w.st with fails := orc.fails, picks := orc.picks }).1
+                 (run { w.st with fails := orc.fails, picks := orc.picks }).2.2.2) 1).2 := by
+  unfold apiCall apiMid apiFrz apiMuts
+  generalize run { w.st with fails := orc.fails, picks := orc.picks } = r
+  obtain ⟨s1, ret, msg, evs⟩ := r
+  simp only []
+  cases w.freezeAt with
+  | none => rfl
+  | some k =>
+    simp only []
+    split <;> rfl
+
+theorem saved_tick {c : Codec} {s1 : State} {h : Nat} (hs : Saved c s1 h)
+    (hb : ∀ t, Ev.bg t (s1.obj h).id ∉ (advance ({ s1 with fails := [], picks := [] } : State) 1).2) :
+    Saved c (advance ({ s1 with fails := [], picks := [] } : State) 1).1 h := by
+  have hheap := advance_heap ({ s1 with fails := [], picks := [] } : State) 1
+  have ho : (advance ({ s1 with fails := [], picks := [] } : State) 1).1.obj h = s1.obj h := obj_of_heap_eq hheap h
+  unfold Saved
+  rw [ho, (advance_keeps _ 1 (s1.obj h).id hb).1]
+  exact hs
+
+/-- an API call without crash point: what was saved at the end of the call is saved at the next boundary, unless the
+tick shows a clean-up of that id -/
+theorem apiCall_saved {c : Codec} (w : World) (orc : Orc) (run : State → State × RetV × Option String × List Ev) (b : Bool)
+    (h : Nat) (hfz : w.freezeAt = none) (hS : Saved c (run (orcSt w orc)).1 h)
+    (hb : ∀ t, Ev.bg t (((apiCall w orc run b).1.st.obj h).id) ∉ (apiCall w orc run b).2.bg) :
+    Saved c (apiCall w orc run b).1.st h := by
+  have hmid : ∀ s1 evs, apiMid w s1 evs = { s1 with fails := [], picks := [] } := by
+    intro s1 evs; unfold apiMid apiFrz; rw [hfz]
+  rw [apiCall_bg, hmid] at hb
+  rw [apiCall_fst, hmid] at hb ⊢
+  simp only at hb ⊢
+  have ho : (advance ({ (run (orcSt w orc)).1 with fails := [], picks := [] } : State) 1).1.obj h =
+      (run (orcSt w orc)).1.obj h := obj_of_heap_eq (advance_heap _ 1) h
+  rw [ho] at hb
+  exact saved_tick hS hb
+
+/-- **`c09_ack_saved_global`.** At every boundary of every history with faults (`WSInv`, i.e. `sinv_all_histories`), for
+every oracle of the step: if a handler call that changes the request's session — `Set`, `Delete`, `LogOut()` of a
+logged-in session, `LogIn`, `RegenerateID` — returns `ok`, then AT THE NEXT BOUNDARY the record stored under the session's
+(possibly new) id is exactly the encoding of the session object: the id is clean whatever faults happened before.
+Hypotheses besides reachability: no crash point is armed for this call (`freezeAt = none`: a crash point discards the
+tail of the call's mutations by definition; `c09_needs_no_crash_point`), and the tick after the call shows no clean-up
+deletion of this id (`Out.bg`; `c09_needs_no_cleanup`). (`LogIn`: unlike `Loc.hlogin_ok_saved`, no hypothesis on the stale
+user index — `hlogin_ok_saved'`.) -/
+theorem c09_ack_saved_global {c : Codec} (le : ID → ID → Bool) (w : World) (orc : Orc) (hop : HOp) (h : Nat)
+    (hw : WSInv c w) (hfz : w.freezeAt = none) (hc : w.cur = some h)
+    (ha : ackSaves w.st h hop) (hret : (w.step le orc (.h hop)).2.ret = some (.str "ok"))
+    (hb : ∀ t, Ev.bg t (((w.step le orc (.h hop)).1.st.obj h).id) ∉ (w.step le orc (.h hop)).2.bg) :
+    Saved c (w.step le orc (.h hop)).1.st h := by
+  have hsk : w.skip = false := by
+    cases hs : w.skip with
+    | false => rfl
+    | true => rw [(step_skip_out le w orc _ hs).2] at hret; cases hret
+  have hcd := hw.codec
+  subst hcd
+  rw [step_h_some le w orc hop h hsk hc] at hret hb ⊢
+  have hi0 : SInv w.cfg.codec (orcSt w orc) := hw.inv.congr rfl rfl rfl rfl rfl
+  have hv : h < (orcSt w orc).heap.length := hw.cur h hc
+  rw [(apiCall_out w orc _ true).1] at hret
+  simp only [Option.some.injEq] at hret
+  exact apiCall_saved w orc _ true h hfz (hRun_ack_saved le hi0 w.hasCookie h hv hop ha hret) hb
+
+/-! ### the two hypotheses of `c09_ack_saved_global`, each with its failing case -/
+
+/-- `freezeAt = none`: with `crashinside 0` armed the `Set` answers `ok`, but the process died before its save took
+effect — the record at the next boundary lacks the value (that is what a crash point means; C10 is about these). -/
+def fxFreeze : List (Orc × Op) := [ ({}, .req "a" .none "" "" true), ({}, .crashinside 0) ]
+#guard ((runHist idLe {} fxFreeze).step idLe {} (.h (.set "k" (.int 1)))).2.ret == some (.str "ok")
+#guard (lookup (ID.gen 0) ((runHist idLe {} fxFreeze).step idLe {} (.h (.set "k" (.int 1)))).1.st.store).map (·.data)
+        == some (some [])
+#guard (((runHist idLe {} fxFreeze).step idLe {} (.h (.set "k" (.int 1)))).1.st.obj 0).data == some [("k", .int 1)]
+
+/-- no clean-up of the id at the tick: in the structurally sound world `fxTimerW` a clean-up goroutine is waiting for the
+request's own id; the `Set` answers `ok`, the tick deletes the record. (`WSInv` does not exclude such a timer. In
+fault-free histories a timer only ever waits for a replaced id — the chain theorems of `More/Chain05*` —; whether every
+history WITH faults keeps timers off live ids is not proved here, hence the hypothesis, which the transcript decides.) -/
+def fxTimerO : Sess := { id := .gen 0, created := 0, lastAccess := 0 }
+def fxTimerW : World :=
+  { st := { heap := [fxTimerO], store := [(.gen 0, enc .gob fxTimerO)], timers := [(0, .gen 0)], nextId := 1 },
+    inReq := true, cur := some 0 }
+
+theorem fxTimerW_ok : WSInv .gob fxTimerW := by
+  have hm : Minted 1 (ID.gen 0) := ⟨0, rfl, by omega⟩
+  refine ⟨rfl, ⟨List.nodup_nil, (by intro _ _ h; cases h), (by intro _ _ h; cases h), ?_, ?_, ?_, ?_⟩, ?_⟩
+  · intro h hh
+    have : h = 0 := by simp [fxTimerW] at hh; omega
+    subst this; exact hm
+  · intro h hh
+    have : h = 0 := by simp [fxTimerW] at hh; omega
+    subst this; exact refOK_none _
+  · refine ⟨by decide, ?_, ?_, ?_⟩
+    · intro id r hmem; simp [fxTimerW] at hmem; rw [hmem.1]; exact hm
+    · intro id r hmem; simp [fxTimerW] at hmem; rw [hmem.2, enc_ref]; exact refOK_none _
+    · intro id r hmem; simp [fxTimerW] at hmem; rw [hmem.2]; exact norm_enc _ _
+  · intro t id hmem; simp [fxTimerW] at hmem; rw [hmem.2]; exact hm
+  · intro h hh; simp [fxTimerW] at hh; subst hh; decide
+
+#guard (fxTimerW.step idLe {} (.h (.set "k" (.int 1)))).2.ret == some (.str "ok")
+#guard (fxTimerW.step idLe {} (.h (.set "k" (.int 1)))).2.bg == [.bg 0 (.gen 0)]
+#guard (lookup (ID.gen 0) (fxTimerW.step idLe {} (.h (.set "k" (.int 1)))).1.st.store).isNone
+
+/-- the same for creation by `Start`: a request without cookie answered with a session (stated for this case, which
+needs no case analysis of `Start`; the other creating paths end in the same `createNew`). -/
+theorem c09_created_saved_global {c : Codec} (le : ID → ID → Bool) (w : World) (orc : Orc) (client ip ua : String)
+    (hw : WSInv c w) (hsk : w.skip = false) (hfz : w.freezeAt = none) (h : Nat)
+    (hcur : (w.step le orc (.req client .none ip ua true)).1.cur = some h)
+    (hb : ∀ t, Ev.bg t (((w.step le orc (.req client .none ip ua true)).1.st.obj h).id) ∉
+      (w.step le orc (.req client .none ip ua true)).2.bg) :
+    Saved c (w.step le orc (.req client .none ip ua true)).1.st h := by
+  have hcd := hw.codec
+  subst hcd
+  rw [step_req le w orc client .none ip ua true hsk] at hcur hb ⊢
+  simp only at hcur hb ⊢
+  have hstart : start w.cfg (orcSt w orc) (reqOf1 w client .none ip ua true) =
+      createNew w.cfg (orcSt w orc) (reqOf1 w client .none ip ua true) [] := Loc.start_none rfl
+  have hres : (createNew w.cfg (orcSt w orc) (reqOf1 w client .none ip ua true) []).2.1 = .sess h := by
+    rw [apiCall_fst] at hcur
+    have : curOf (start w.cfg (orcSt w orc) (reqOf1 w client .none ip ua true)).2.1 = some h := hcur
+    rw [hstart] at this
+    generalize (createNew w.cfg (orcSt w orc) (reqOf1 w client .none ip ua true) []).2.1 = res at this
+    cases res <;> simp [curOf] at this
+    rw [this]
+  have hS := createNew_ack_saved w.cfg (orcSt w orc) (reqOf1 w client .none ip ua true) [] h hres
+  refine apiCall_saved _ orc _ true h hfz ?_ hb
+  show Saved w.cfg.codec (start w.cfg (orcSt w orc) (reqOf1 w client .none ip ua true)).1 h
+  rw [hstart]; exact hS
+
+/-! ## 3. C11: what the events of a call can be (every state, every oracle)
+
+Event classes: `isLoadFail` (a failed `LoadSession`, a failed `LoadUser` inside it, the decoder giving up), `isDel`
+(a successful `DeleteSession`), `isCookie`. `AllB p evs`: no event of `evs` is in class `p`. -/
+
+def isLoadFail : Ev → Bool
+  | .loadFail _ => true
+  | .loadErr _ => true
+  | .userFail _ => true
+  | _ => false
+
+def isDel : Ev → Bool
+  | .del _ => true
+  | _ => false
+
+def AllB (p : Ev → Bool) (evs : List Ev) : Prop := ∀ e ∈ evs, p e = false
+
+theorem AllB.nil (p : Ev → Bool) : AllB p [] := by intro e he; cases he
+theorem AllB.append {p : Ev → Bool} {a b : List Ev} (ha : AllB p a) (hb : AllB p b) : AllB p (a ++ b) := by
+  intro e he; rcases List.mem_append.1 he with h | h
+  · exact ha e h
+  · exact hb e h
+theorem AllB.single {p : Ev → Bool} {e : Ev} (h : p e = false) : AllB p [e] := by
+  intro e' he; simp only [List.mem_singleton] at he; subst he; exact h
+theorem AllB.left {p : Ev → Bool} {a b : List Ev} (h : AllB p (a ++ b)) : AllB p a := fun e he => h e (List.mem_append_left _ he)
+theorem AllB.right {p : Ev → Bool} {a b : List Ev} (h : AllB p (a ++ b)) : AllB p b := fun e he => h e (List.mem_append_right _ he)
+theorem AllB.cons {p : Ev → Bool} {e : Ev} {l : List Ev} (h : p e = false) (hl : AllB p l) : AllB p (e :: l) := by
+  intro e' he; rcases List.mem_cons.1 he with h' | h'
+  · subst h'; exact h
+  · exact hl e' h'
+theorem AllB.not_mem_del {evs : List Ev} (h : AllB isDel evs) (k : ID) : Ev.del k ∉ evs := fun hm => by
+  have := h _ hm; simp [isDel] at this
+
+/-- every event is a save or a failed save -/
+def SaveOnly (evs : List Ev) : Prop := ∀ e ∈ evs, (∃ k r, e = .save k r) ∨ (∃ k, e = .saveFail k)
+
+theorem SaveOnly.allB {evs : List Ev} (h : SaveOnly evs) {p : Ev → Bool} (h1 : ∀ k r, p (.save k r) = false)
+    (h2 : ∀ k, p (.saveFail k) = false) : AllB p evs := by
+  intro e he
+  rcases h e he with ⟨k, r, rfl⟩ | ⟨k, rfl⟩
+  · exact h1 k r
+  · exact h2 k
+theorem SaveOnly.lf {evs : List Ev} (h : SaveOnly evs) : AllB isLoadFail evs := h.allB (fun _ _ => rfl) (fun _ => rfl)
+theorem SaveOnly.del {evs : List Ev} (h : SaveOnly evs) : AllB isDel evs := h.allB (fun _ _ => rfl) (fun _ => rfl)
+theorem SaveOnly.ck {evs : List Ev} (h : SaveOnly evs) : AllB isCookie evs := h.allB (fun _ _ => rfl) (fun _ => rfl)
+theorem SaveOnly.append {a b : List Ev} (ha : SaveOnly a) (hb : SaveOnly b) : SaveOnly (a ++ b) := by
+  intro e he; rcases List.mem_append.1 he with h | h
+  · exact ha e h
+  · exact hb e h
+theorem SaveOnly.nil : SaveOnly [] := by intro e he; cases he
+
+theorem saveRec_saveOnly (cfg : Cfg) (s : State) (id : ID) (o : Sess) : SaveOnly (saveRec cfg s id o).2.2 := by
+  rw [Loc.saveRec_evs]; intro e he; simp only [List.mem_singleton] at he; subst he
+  split
+  · exact Or.inl ⟨_, _, rfl⟩
+  · exact Or.inr ⟨_, rfl⟩
+
+theorem cacheSet_saveOnly (cfg : Cfg) (s : State) (h : Nat) : SaveOnly (cacheSet cfg s h).2.2 :=
+  fun _ he => Loc.cacheSet_ev_cases he
+
+theorem compact_saveOnly (cfg : Cfg) (req : Int) (s : State) : SaveOnly (compact cfg req s).2 :=
+  fun _ he => (Loc.compact_flushed cfg req s).ev_cases he
+
+/-- `RegenerateID`: saves and failed saves, then (on success) the new cookie -/
+theorem regenerate_evs_shape (cfg : Cfg) (s : State) (h : Nat) :
+    ∃ a b, (regenerate cfg s h).2.2 = a ++ b ∧ SaveOnly a ∧ (b = [] ∨ b = [.setCookie (ID.gen s.nextId)]) := by
+  have hA := cacheSet_saveOnly cfg (Loc.regenS0 s h) h
+  have hB := cacheSet_saveOnly cfg (Loc.regenS2 cfg s h) (Loc.regenA cfg s h).1.heap.length
+  rw [Loc.regenerate_eq]
+  split
+  · exact ⟨_, [], (List.append_nil _).symm, hA, Or.inl rfl⟩
+  · split
+    · exact ⟨_, [], (List.append_nil _).symm, hA.append hB, Or.inl rfl⟩
+    · exact ⟨_, _, rfl, hA.append hB, Or.inr rfl⟩
+
+theorem regenerate_lf (cfg : Cfg) (s : State) (h : Nat) : AllB isLoadFail (regenerate cfg s h).2.2 := by
+  obtain ⟨a, b, he, ha, hb⟩ := regenerate_evs_shape cfg s h
+  rw [he]; refine ha.lf.append ?_
+  rcases hb with rfl | rfl
+  · exact AllB.nil _
+  · exact AllB.single rfl
+
+theorem regenerate_del (cfg : Cfg) (s : State) (h : Nat) : AllB isDel (regenerate cfg s h).2.2 := by
+  obtain ⟨a, b, he, ha, hb⟩ := regenerate_evs_shape cfg s h
+  rw [he]; refine ha.del.append ?_
+  rcases hb with rfl | rfl
+  · exact AllB.nil _
+  · exact AllB.single rfl
+
+theorem cacheDelete_evs (s : State) (id : ID) : (cacheDelete s id).2.2 = [.del id] ∨ (cacheDelete s id).2.2 = [.delFail id] := by
+  rw [Loc.cacheDelete_eq]; split
+  · exact Or.inr rfl
+  · exact Or.inl rfl
+
+theorem cacheDelete_lf (s : State) (id : ID) : AllB isLoadFail (cacheDelete s id).2.2 := by
+  rcases cacheDelete_evs s id with h | h <;> rw [h] <;> exact AllB.single rfl
+theorem cacheDelete_ck (s : State) (id : ID) : AllB isCookie (cacheDelete s id).2.2 := by
+  rcases cacheDelete_evs s id with h | h <;> rw [h] <;> exact AllB.single rfl
+
+theorem destroy_lf (s : State) (h : Nat) (b : Bool) : AllB isLoadFail (destroy s h b).2.2 := by
+  have h1 := cacheDelete_lf s (s.obj h).id
+  rw [Loc.destroy_eq]; split
+  · exact h1
+  · split
+    · exact h1.append (AllB.single rfl)
+    · exact h1
+
+/-- creation adds saves, failed saves and (on success) the new cookie to the events so far -/
+theorem createNew_allB (cfg : Cfg) (s : State) (r : Req) (pre : List Ev) {p : Ev → Bool} (hp : AllB p pre)
+    (h1 : ∀ k r, p (.save k r) = false) (h2 : ∀ k, p (.saveFail k) = false) (h3 : ∀ k, p (.setCookie k) = false) :
+    AllB p (createNew cfg s r pre).2.2 := by
+  have hS := (cacheSet_saveOnly cfg (Loc.newS1 s r) s.heap.length).allB h1 h2
+  cases hc : r.create with
+  | false => rw [Loc.createNew_no pre hc]; exact hp
+  | true =>
+    rw [Loc.createNew_yes pre hc]; split
+    · exact hp.append hS
+    · exact (hp.append hS).append (AllB.single (h3 _))
+
+theorem flush_allB {cfg : Cfg} {c : List (ID × Nat)} {obj : Nat → Sess} {e : Ev} (h : Loc.IsFlush cfg c obj e) {p : Ev → Bool}
+    (h1 : ∀ k r, p (.save k r) = false) (h2 : ∀ k, p (.saveFail k) = false) : p e = false := by
+  obtain ⟨k, x, _, he | he⟩ := h
+  · rw [he]; exact h1 _ _
+  · rw [he]; exact h2 _
+
+/-- `cache.Get` never deletes and never touches a cookie -/
+theorem cacheGet_del (cfg : Cfg) (s : State) (id : ID) : AllB isDel (cacheGet cfg s id).2.2 := by
+  intro e he
+  rcases (Loc.cacheGet_spec cfg s id).evs_shape e he with h | h | h | h | h | ⟨u, h⟩ | ⟨u, h⟩
+  · exact flush_allB h (fun _ _ => rfl) (fun _ => rfl)
+  all_goals (rw [h]; rfl)
+
+theorem cacheGet_ck (cfg : Cfg) (s : State) (id : ID) : AllB isCookie (cacheGet cfg s id).2.2 := by
+  intro e he
+  rcases (Loc.cacheGet_spec cfg s id).evs_shape e he with h | h | h | h | h | ⟨u, h⟩ | ⟨u, h⟩
+  · exact flush_allB h (fun _ _ => rfl) (fun _ => rfl)
+  all_goals (rw [h]; rfl)
+
+theorem failureEv_of_lf {e : Ev} (h : isLoadFail e = true) : Loc.FailureEv e := by
+  cases e <;> simp [isLoadFail] at h
+  · exact Or.inl rfl
+  · exact Or.inr ⟨_, rfl⟩
+  · exact Or.inl rfl
+
+theorem allB_lf_of_onlySave {K : ID → Prop} {evs : List Ev} (h : Loc.OnlySaveFails K evs) : AllB isLoadFail evs := by
+  intro e he
+  cases hb : isLoadFail e with
+  | false => rfl
+  | true =>
+    obtain ⟨k, hk, _⟩ := h e he (failureEv_of_lf hb)
+    rw [hk] at hb; cases hb
+
+/-- a `cache.Get` that did not fail shows no failed load -/
+theorem cacheGet_lf {cfg : Cfg} {s : State} {id : ID} (hne : (cacheGet cfg s id).2.1 ≠ .err) :
+    AllB isLoadFail (cacheGet cfg s id).2.2 := by
+  intro e he
+  cases hb : isLoadFail e with
+  | false => rfl
+  | true =>
+    obtain ⟨k, x, _, hk⟩ := Loc.cacheGet_ok_fail_events hne he (failureEv_of_lf hb)
+    rw [hk] at hb; cases hb
+
+theorem follow_facts (cfg : Cfg) : ∀ (n : Nat) (s : State) (h : Nat),
+    AllB isDel (follow cfg n s h).2.2 ∧ AllB isCookie (follow cfg n s h).2.2 ∧ (follow cfg n s h).1.nextId = s.nextId
+  | 0, s, h => by rw [Loc.follow_zero]; exact ⟨AllB.nil _, AllB.nil _, rfl⟩
+  | n + 1, s, h => by
+    cases href : (s.obj h).ref with
+    | none => rw [Loc.follow_succ_none n href]; exact ⟨AllB.nil _, AllB.nil _, rfl⟩
+    | some tgt =>
+      rw [Loc.follow_succ_some n href]
+      have h1 := cacheGet_del cfg s tgt
+      have h2 := cacheGet_ck cfg s tgt
+      have h3 := (Loc.cacheGet_spec cfg s tgt).nextId
+      generalize cacheGet cfg s tgt = x at h1 h2 h3
+      obtain ⟨s1, res, e1⟩ := x
+      cases res with
+      | err => exact ⟨h1, h2, h3⟩
+      | nil => exact ⟨h1, h2, h3⟩
+      | some h2' =>
+        obtain ⟨f1, f2, f3⟩ := follow_facts cfg n s1 h2'
+        exact ⟨h1.append f1, h2.append f2, f3.trans h3⟩
+
+theorem follow_lf {cfg : Cfg} {n : Nat} {s : State} {h : Nat} (hne : (follow cfg n s h).2.1 ≠ .err) :
+    AllB isLoadFail (follow cfg n s h).2.2 := allB_lf_of_onlySave (Loc.follow_ok_clean cfg n s h hne)
+
+/-- **C11 (a2), general form**: a `Start` that shows a failed load (of the presented id or of an id on its reference
+chain) returns an error, deletes nothing, sends no cookie — neither the deletion cookie nor a new one — and mints no
+id (no replacement session). Every state, every oracle. -/
+theorem start_failed_load_quiet (cfg : Cfg) (s : State) (r : Req) (hlf : ¬ AllB isLoadFail (start cfg s r).2.2) :
+    (∃ m, (start cfg s r).2.1 = .err m) ∧ AllB isDel (start cfg s r).2.2 ∧ AllB isCookie (start cfg s r).2.2 ∧
+    (start cfg s r).1.nextId = s.nextId := by
+  have hnew : ∀ s' pre, AllB isLoadFail pre → AllB isLoadFail (createNew cfg s' r pre).2.2 :=
+    fun s' pre hp => createNew_allB cfg s' r pre hp (fun _ _ => rfl) (fun _ => rfl) (fun _ => rfl)
+  cases hck : r.cookie with
+  | none => rw [Loc.start_none hck] at hlf; exact absurd (hnew s [] (AllB.nil _)) hlf
+  | some id =>
+    by_cases hlen : r.cookieLen = 24
+    · rw [Loc.start_some hck hlen] at hlf ⊢
+      have g1 := cacheGet_del cfg s id
+      have g2 := cacheGet_ck cfg s id
+      have g3 := (Loc.cacheGet_spec cfg s id).nextId
+      have g4 : (cacheGet cfg s id).2.1 ≠ .err → AllB isLoadFail (cacheGet cfg s id).2.2 := cacheGet_lf
+      generalize cacheGet cfg s id = x at hlf g1 g2 g3 g4
+      obtain ⟨s1, res, e1⟩ := x
+      cases res with
+      | err => exact ⟨⟨_, rfl⟩, g1, g2, g3⟩
+      | nil =>
+        exact absurd (hnew s1 _ ((g4 (by simp)).append (AllB.single rfl))) hlf
+      | some h =>
+        have e1lf : AllB isLoadFail e1 := g4 (by simp)
+        simp only [Loc.startGot] at hlf ⊢
+        split at hlf
+        · -- invalid: destroy, then create
+          rename_i hvf
+          rw [if_pos hvf]
+          unfold Loc.startInvalid at hlf ⊢
+          have hD := e1lf.append (destroy_lf s1 h true)
+          split at hlf
+          · exact absurd hD hlf
+          · exact absurd (hnew _ _ hD) hlf
+        · rename_i hvf
+          rw [if_neg hvf]
+          cases href : (s1.obj h).ref with
+          | none =>
+            by_cases hage : since s1.now (s1.obj h).created ≥ cfg.idExpiry
+            · rw [Loc.startValid_rotate id r e1 href hage] at hlf
+              have hR := e1lf.append (regenerate_lf cfg s1 h)
+              split at hlf
+              · exact absurd hR hlf
+              · exact absurd hR hlf
+            · rw [Loc.startValid_young id r e1 href (by omega)] at hlf
+              exact absurd e1lf hlf
+          | some t =>
+            by_cases hage : since s1.now (s1.obj h).created ≥ cfg.idExpiry ∧ since s1.now (s1.obj h).created - cfg.idExpiry ≥ cfg.grace
+            · rw [Loc.startValid_ref_expired id r e1 href hage] at hlf
+              have hD := e1lf.append (cacheDelete_lf s1 id)
+              split at hlf
+              · exact absurd hD hlf
+              · exact absurd hD hlf
+            · rw [Loc.startValid_ref id r e1 href hage] at hlf ⊢
+              obtain ⟨f1, f2, f3⟩ := follow_facts cfg (s1.store.length + s1.cache.length + 1) s1 h
+              have f4 : (follow cfg (s1.store.length + s1.cache.length + 1) s1 h).2.1 ≠ .err →
+                  AllB isLoadFail (follow cfg (s1.store.length + s1.cache.length + 1) s1 h).2.2 := follow_lf
+              generalize follow cfg (s1.store.length + s1.cache.length + 1) s1 h = y at hlf f1 f2 f3 f4
+              obtain ⟨s2, res2, e2⟩ := y
+              cases res2 with
+              | err => exact ⟨⟨_, rfl⟩, g1.append f1, g2.append f2, f3.trans g3⟩
+              | nil => exact absurd (e1lf.append (f4 (by simp))) hlf
+              | some h2 => exact absurd ((e1lf.append (f4 (by simp))).append (AllB.single rfl)) hlf
+    · rw [Loc.start_len hlen] at hlf; exact absurd (hnew s [] (AllB.nil _)) hlf
+
+theorem createNew_del_pre {cfg : Cfg} {s : State} {r : Req} {pre : List Ev} {k : ID}
+    (hd : Ev.del k ∈ (createNew cfg s r pre).2.2) : Ev.del k ∈ pre := by
+  have hS := (cacheSet_saveOnly cfg (Loc.newS1 s r) s.heap.length).del
+  cases hc : r.create with
+  | false => rw [Loc.createNew_no pre hc] at hd; exact hd
+  | true =>
+    rw [Loc.createNew_yes pre hc] at hd
+    split at hd
+    · rcases List.mem_append.1 hd with h | h
+      · exact h
+      · exact absurd h (hS.not_mem_del k)
+    · rcases List.mem_append.1 hd with h | h
+      · rcases List.mem_append.1 h with h | h
+        · exact h
+        · exact absurd h (hS.not_mem_del k)
+      · simp at h
+
+/-- **what a `Start` that deletes has found**: a successful `DeleteSession` inside `Start` happens only after `cache.Get`
+returned an object `h` for the presented id, and either that object failed the validity test (stale, or address/agent
+anomaly: the request `Destroy`s it, deleting the record under the OBJECT's id), or it is a reference record past its
+grace period (the back-stop: the record under the PRESENTED id is deleted). In particular never after a failed load
+(`start_failed_load_quiet`). Every state, every oracle. -/
+theorem start_del_cases (cfg : Cfg) (s : State) (r : Req) (k : ID) (hd : Ev.del k ∈ (start cfg s r).2.2) :
+    ∃ id s1 h e1, r.cookie = some id ∧ r.cookieLen = 24 ∧ cacheGet cfg s id = (s1, .some h, e1) ∧
+      ((validFor cfg s1.now (s1.obj h) r = false ∧ k = (s1.obj h).id) ∨
+       (validFor cfg s1.now (s1.obj h) r = true ∧ (s1.obj h).ref ≠ none ∧
+          since s1.now (s1.obj h).created ≥ cfg.idExpiry ∧ since s1.now (s1.obj h).created - cfg.idExpiry ≥ cfg.grace ∧ k = id)) := by
+  have hnew : ∀ s' pre, AllB isDel pre → AllB isDel (createNew cfg s' r pre).2.2 :=
+    fun s' pre hp => createNew_allB cfg s' r pre hp (fun _ _ => rfl) (fun _ => rfl) (fun _ => rfl)
+  cases hck : r.cookie with
+  | none => rw [Loc.start_none hck] at hd; exact absurd hd ((hnew s [] (AllB.nil _)).not_mem_del k)
+  | some id =>
+    by_cases hlen : r.cookieLen = 24
+    · rw [Loc.start_some hck hlen] at hd
+      have g1 := cacheGet_del cfg s id
+      rcases hg : cacheGet cfg s id with ⟨s1, res, e1⟩
+      rw [hg] at hd g1
+      cases res with
+      | err => exact absurd hd (g1.not_mem_del k)
+      | nil => exact absurd hd ((hnew s1 _ (g1.append (AllB.single rfl))).not_mem_del k)
+      | some h =>
+        refine ⟨id, s1, h, e1, rfl, hlen, hg, ?_⟩
+        simp only [Loc.startGot] at hd
+        split at hd
+        · rename_i hvf
+          left
+          refine ⟨hvf, ?_⟩
+          unfold Loc.startInvalid at hd
+          have hkey : ∀ l, AllB isDel l → Ev.del k ∈ e1 ++ (destroy s1 h true).2.2 ++ l → k = (s1.obj h).id := by
+            intro l hl hm
+            rcases List.mem_append.1 hm with hm | hm
+            · rcases List.mem_append.1 hm with hm | hm
+              · exact absurd hm (g1.not_mem_del k)
+              · rw [Loc.destroy_eq] at hm
+                have hcd : Ev.del k ∈ (cacheDelete s1 (s1.obj h).id).2.2 ∨ Ev.del k ∈ [Ev.delCookie] := by
+                  split at hm
+                  · exact Or.inl hm
+                  · split at hm
+                    · exact List.mem_append.1 hm
+                    · exact Or.inl hm
+                rcases hcd with hcd | hcd
+                · rcases cacheDelete_evs s1 (s1.obj h).id with he | he <;> rw [he] at hcd <;> simp at hcd
+                  exact hcd
+                · simp at hcd
+            · exact absurd hm (hl.not_mem_del k)
+          split at hd
+          · exact hkey [] (AllB.nil _) (by simpa using hd)
+          · exact hkey [] (AllB.nil _) (by simpa using createNew_del_pre hd)
+        · rename_i hvf
+          right
+          have hvt : validFor cfg s1.now (s1.obj h) r = true := by simpa using hvf
+          refine ⟨hvt, ?_⟩
+          cases href : (s1.obj h).ref with
+          | none =>
+            by_cases hage : since s1.now (s1.obj h).created ≥ cfg.idExpiry
+            · rw [Loc.startValid_rotate id r e1 href hage] at hd
+              have hR := g1.append (regenerate_del cfg s1 h)
+              split at hd <;> exact absurd hd (hR.not_mem_del k)
+            · rw [Loc.startValid_young id r e1 href (by omega)] at hd
+              exact absurd hd (g1.not_mem_del k)
+          | some t =>
+            by_cases hage : since s1.now (s1.obj h).created ≥ cfg.idExpiry ∧ since s1.now (s1.obj h).created - cfg.idExpiry ≥ cfg.grace
+            · rw [Loc.startValid_ref_expired id r e1 href hage] at hd
+              refine ⟨by simp, hage.1, hage.2, ?_⟩
+              have hm : Ev.del k ∈ e1 ++ (cacheDelete s1 id).2.2 := by split at hd <;> exact hd
+              rcases List.mem_append.1 hm with hm | hm
+              · exact absurd hm (g1.not_mem_del k)
+              · rcases cacheDelete_evs s1 id with he | he <;> rw [he] at hm <;> simp at hm
+                exact hm
+            · rw [Loc.startValid_ref id r e1 href hage] at hd
+              obtain ⟨f1, _, _⟩ := follow_facts cfg (s1.store.length + s1.cache.length + 1) s1 h
+              generalize follow cfg (s1.store.length + s1.cache.length + 1) s1 h = y at hd f1
+              obtain ⟨s2, res2, e2⟩ := y
+              cases res2 with
+              | err => exact absurd hd ((g1.append f1).not_mem_del k)
+              | nil => exact absurd hd ((g1.append f1).not_mem_del k)
+              | some h2 => exact absurd hd (((g1.append f1).append (AllB.single rfl)).not_mem_del k)
+    · rw [Loc.start_len hlen] at hd; exact absurd hd ((hnew s [] (AllB.nil _)).not_mem_del k)
+
+/-! ## 4. C11 at the level of histories: no silent loss, no deletion after a failed load
+
+`Faulty11Store.lean` proves that the store after ANY step is the store before it with the events of the transcript
+applied (`step_store_follows_events`, `step_store_frozen`, `hist_store_follows_events`; `applyEvs`). Consequences: -/
+
+/-- **`c11_no_silent_loss`, part 1.** Whatever the oracles: a record that is in the store before a step is still in the
+store after it (possibly overwritten by a successful save), unless the transcript of that very step shows a successful
+`DeleteSession` of its id by the call (`.del k ∈ evs`) or by a clean-up goroutine (`.bg _ k ∈ bg`). Failed saves, failed
+deletes, failed loads, failed user look-ups never remove anything. No hypothesis on the world at all: any state, any
+oracle, crash point or not (a crash point only discards a tail of the shown mutations, `step_store_frozen`). -/
+theorem c11_no_silent_loss (le : ID → ID → Bool) (w : World) (orc : Orc) (op : Op) (k : ID) (r : Rec)
+    (hl : lookup k w.st.store = some r)
+    (hkeep : ∀ e ∈ (w.step le orc op).2.evs ++ (w.step le orc op).2.bg, KeepsKey k e) :
+    (lookup k (w.step le orc op).1.st.store).isSome = true := by
+  cases hfz : (w.step le orc op).2.frozen with
+  | none => rw [step_store_follows_events le w orc op (Or.inl hfz)]; exact lookup_applyEvs_keep hl hkeep
+  | some x =>
+    cases x with
+    | none => rw [step_store_follows_events le w orc op (Or.inr hfz)]; exact lookup_applyEvs_keep hl hkeep
+    | some n =>
+      rw [step_store_frozen le w orc op n hfz]
+      apply lookup_applyEvs_keep hl
+      intro e he
+      rcases List.mem_append.1 he with he | he
+      · exact hkeep e (List.mem_append_left _ (List.mem_filter.1 (List.mem_of_mem_take he)).1)
+      · exact hkeep e (List.mem_append_right _ he)
+
+/-- … and a record no event of the step writes or deletes is literally unchanged. -/
+theorem c11_untouched (le : ID → ID → Bool) (w : World) (orc : Orc) (op : Op) (k : ID)
+    (hf : (w.step le orc op).2.frozen = none ∨ (w.step le orc op).2.frozen = some none)
+    (hav : ∀ e ∈ (w.step le orc op).2.evs ++ (w.step le orc op).2.bg, AvoidsKey k e) :
+    lookup k (w.step le orc op).1.st.store = lookup k w.st.store := by
+  rw [step_store_follows_events le w orc op hf]
+  exact lookup_applyEvs_untouched hav _
+
+/-! ### which steps can show a successful delete -/
+
+theorem purgeList_saveOnly (cfg : Cfg) : ∀ (l : List (ID × Nat)) (s : State), SaveOnly (purgeList cfg s l).2
+  | [], _ => SaveOnly.nil
+  | (id, h) :: rest, s => (saveRec_saveOnly cfg s id (s.obj h)).append (purgeList_saveOnly cfg rest _)
+
+theorem purge_del (cfg : Cfg) (s : State) : AllB isDel (purge cfg s).2 := (purgeList_saveOnly cfg _ s).del
+
+theorem saveObj_del (cfg : Cfg) (s : State) (h : Nat) : AllB isDel (saveObj cfg s h).2.2 := (saveRec_saveOnly cfg s _ _).del
+
+theorem hset_del (cfg : Cfg) (s : State) (h : Nat) (k : String) (v : Val) : AllB isDel (hset cfg s h k v).2.2 := by
+  cases hd : (s.obj h).data with
+  | none => rw [Loc.hset_none k v hd]; exact AllB.nil _
+  | some d => rw [Loc.hset_some k v hd]; exact saveObj_del cfg _ h
+
+theorem hdel_del (cfg : Cfg) (s : State) (h : Nat) (k : String) : AllB isDel (hdel cfg s h k).2.2 := by
+  rw [Loc.hdel_eq]; exact saveObj_del cfg _ h
+
+theorem hgetdel_del (cfg : Cfg) (s : State) (h : Nat) (k : String) : AllB isDel (hgetdel cfg s h k).2.2 := by
+  cases hl : lookup k ((s.obj h).data.getD []) with
+  | none => rw [Loc.hgetdel_none hl]; exact AllB.nil _
+  | some v => rw [Loc.hgetdel_some hl]; exact saveObj_del cfg _ h
+
+theorem hlogout_del (cfg : Cfg) (s : State) (h : Nat) : AllB isDel (hlogout cfg s h).2.2 := by
+  cases hu : (s.obj h).user with
+  | none => rw [Loc.hlogout_none hu]; exact AllB.nil _
+  | some u => rw [Loc.hlogout_some hu]; exact saveObj_del cfg _ h
+
+theorem setUserAll_del (cfg : Cfg) (u : Option (String × Nat)) : ∀ (ids : List ID) (s : State),
+    AllB isDel (setUserAll cfg u ids s).2.2
+  | [], s => by rw [Loc.setUserAll_nil]; exact AllB.nil _
+  | id :: rest, s => by
+    have hG := cacheGet_del cfg s id
+    rcases hg : cacheGet cfg s id with ⟨s1, res, e1⟩
+    rw [hg] at hG
+    cases res with
+    | err => rw [Loc.setUserAll_cons_err hg]; exact hG
+    | nil => rw [Loc.setUserAll_cons_nil hg]; exact hG.append (setUserAll_del cfg u rest s1)
+    | some h =>
+      rw [Loc.setUserAll_cons_some hg]
+      have hU : AllB isDel (Loc.userSet cfg u s1 h).2.2 := (cacheSet_saveOnly cfg _ h).del
+      split
+      · exact hG.append hU
+      · exact (hG.append hU).append (setUserAll_del cfg u rest _)
+
+theorem forUser_del (cfg : Cfg) (le : ID → ID → Bool) (s : State) (uid : String) (u : Option (String × Nat)) :
+    AllB isDel (forUser cfg le s uid u).2.2 := by
+  rw [Loc.forUser_eq]; split
+  · exact AllB.single rfl
+  · exact AllB.cons rfl (setUserAll_del cfg u _ _)
+
+theorem hlogin_del (cfg : Cfg) (le : ID → ID → Bool) (s : State) (h : Nat) (uid : String) (excl : Bool) :
+    AllB isDel (hlogin cfg le s h uid excl).2.2 := by
+  have hP : AllB isDel (Loc.loginPre cfg le s h uid excl).2.2 := by
+    unfold Loc.loginPre; split
+    · exact forUser_del cfg le s uid none
+    · exact hlogout_del cfg s h
+  have hS : AllB isDel (Loc.loginSet cfg le s h uid excl).2.2 := (cacheSet_saveOnly cfg _ h).del
+  rw [Loc.hlogin_eq]; split
+  · exact hP
+  · split
+    · exact hP.append hS
+    · exact (hP.append hS).append (regenerate_del cfg _ h)
+
+theorem mem_filter_del {evs : List Ev} {k : ID} (h : Ev.del k ∈ evs.filter (fun e => !isCookie e)) : Ev.del k ∈ evs :=
+  (List.mem_filter.1 h).1
+
+/-- **`c11_no_silent_loss`, part 2: a successful delete is shown only by a step that invalidated the session or by
+`Destroy`.** For every world, oracle and operation: if the events of the step contain `.del k` then
+either the operation is the handler's `Destroy` on the request's session, whose id is `k`; or it is a request whose
+`Start` got an object `h` for the presented id from `cache.Get` and found it invalid (stale / address or agent anomaly:
+`k` is that object's id) or found a reference record past its grace period (back-stop: `k` is the presented id) — and
+in that case the step shows NO failed load (`loadFail`, `userFail`, `loadErr`) at all. No other operation —
+`Set`, `Delete`, `GetAndDelete`, `LogIn`, `LogOut`, `RegenerateID`, `LogOut(uid)`, `RefreshUser`, `PurgeSessions` —
+ever deletes a record, whatever fails. -/
+theorem c11_del_only_by_invalidation (le : ID → ID → Bool) (w : World) (orc : Orc) (op : Op) (k : ID)
+    (hd : Ev.del k ∈ (w.step le orc op).2.evs) :
+    (∃ h, op = .h .destroy ∧ w.cur = some h ∧ k = (w.st.obj h).id) ∨
+    (∃ client spec ip ua create, op = .req client spec ip ua create ∧
+      AllB isLoadFail (w.step le orc op).2.evs ∧
+      ∃ id s1 h e1, (reqOf1 w client spec ip ua create).cookie = some id ∧
+        cacheGet w.cfg (orcSt w orc) id = (s1, .some h, e1) ∧
+        ((validFor w.cfg s1.now (s1.obj h) (reqOf1 w client spec ip ua create) = false ∧ k = (s1.obj h).id) ∨
+         (validFor w.cfg s1.now (s1.obj h) (reqOf1 w client spec ip ua create) = true ∧ (s1.obj h).ref ≠ none ∧
+            since s1.now (s1.obj h).created ≥ w.cfg.idExpiry ∧
+            since s1.now (s1.obj h).created - w.cfg.idExpiry ≥ w.cfg.grace ∧ k = id))) := by
+  have hsk : w.skip = false := by
+    cases hs : w.skip with
+    | false => rfl
+    | true => rw [(step_skip_out le w orc op hs).1] at hd; cases hd
+  cases op with
+  | req client spec ip ua create =>
+    right
+    rw [step_req le w orc client spec ip ua create hsk] at hd ⊢
+    simp only at hd ⊢
+    rw [(apiCall_out3 _ orc _ true).1] at hd ⊢
+    have hd' : Ev.del k ∈ (start w.cfg (orcSt w orc) (reqOf1 w client spec ip ua create)).2.2 := mem_filter_del hd
+    obtain ⟨id, s1, h, e1, hck, _, hg, hcases⟩ := start_del_cases w.cfg (orcSt w orc) _ k hd'
+    refine ⟨client, spec, ip, ua, create, rfl, ?_, id, s1, h, e1, hck, hg, hcases⟩
+    have hq : AllB isLoadFail (start w.cfg (orcSt w orc) (reqOf1 w client spec ip ua create)).2.2 := by
+      cases Classical.em (AllB isLoadFail (start w.cfg (orcSt w orc) (reqOf1 w client spec ip ua create)).2.2) with
+      | inl h => exact h
+      | inr h => exact absurd hd' ((start_failed_load_quiet w.cfg (orcSt w orc) _ h).2.1.not_mem_del k)
+    intro e he
+    exact hq e (List.mem_filter.1 he).1
+  | h hop =>
+    cases hc : w.cur with
+    | none => rw [step_h_none le w orc hop hsk hc] at hd; simp at hd
+    | some h =>
+      rw [step_h_some le w orc hop h hsk hc, (apiCall_out3 w orc _ true).1] at hd
+      have hd' := mem_filter_del hd
+      cases hop with
+      | destroy =>
+        left
+        refine ⟨h, rfl, rfl, ?_⟩
+        have hm : Ev.del k ∈ (destroy (orcSt w orc) h w.hasCookie).2.2 := hd'
+        rw [Loc.destroy_eq] at hm
+        have hcd : Ev.del k ∈ (cacheDelete (orcSt w orc) ((orcSt w orc).obj h).id).2.2 := by
+          split at hm
+          · exact hm
+          · split at hm
+            · rcases List.mem_append.1 hm with h' | h'
+              · exact h'
+              · simp at h'
+            · exact hm
+        rcases cacheDelete_evs (orcSt w orc) ((orcSt w orc).obj h).id with he | he <;> rw [he] at hcd <;> simp at hcd
+        exact hcd
+      | set k' v => exact absurd hd' ((hset_del w.cfg _ h k' v).not_mem_del k)
+      | del k' => exact absurd hd' ((hdel_del w.cfg _ h k').not_mem_del k)
+      | get k' => simp [hRun] at hd'
+      | getdel k' => exact absurd hd' ((hgetdel_del w.cfg _ h k').not_mem_del k)
+      | login uid excl => exact absurd hd' ((hlogin_del w.cfg le _ h uid excl).not_mem_del k)
+      | logout => exact absurd hd' ((hlogout_del w.cfg _ h).not_mem_del k)
+      | regen => exact absurd hd' ((regenerate_del w.cfg _ h).not_mem_del k)
+      | expired => simp [hRun] at hd'
+      | lastaccess => simp [hRun] at hd'
+      | user => simp [hRun] at hd'
+  | purge =>
+    unfold World.step at hd
+    simp only [hsk, Bool.false_and, Bool.false_eq_true, if_false, finish_snd_evs] at hd
+    rw [(apiCall_out3 w orc _ false).1] at hd
+    exact absurd (mem_filter_del hd) ((purge_del w.cfg _).not_mem_del k)
+  | logoutUser uid =>
+    unfold World.step at hd
+    simp only [hsk, Bool.false_and, Bool.false_eq_true, if_false, finish_snd_evs] at hd
+    rw [(apiCall_out3 w orc _ false).1] at hd
+    exact absurd (mem_filter_del hd) ((forUser_del w.cfg le _ uid none).not_mem_del k)
+  | refresh uid =>
+    unfold World.step at hd
+    simp only [hsk, Bool.false_and, Bool.false_eq_true, if_false, finish_snd_evs] at hd
+    rw [(apiCall_out3 w orc _ false).1] at hd
+    exact absurd (mem_filter_del hd) ((forUser_del w.cfg le _ uid _).not_mem_del k)
+  | _ =>
+    unfold World.step at hd
+    simp only [hsk, Bool.false_and, Bool.false_eq_true, if_false, finish_snd_evs] at hd
+    simp at hd
+
+/-- **`c11_failed_load_global`** (C11 "a failed load is never treated as 'no such session'"), every world, every
+oracle: a request whose transcript shows a failed load — of the presented id or of an id on its reference chain —
+returns an error, sends no cookie (the client's cookie is not expired, no new cookie is set), shows no successful
+delete, and mints no id (no replacement session is created). With `c11_no_silent_loss`: every record in the store
+before the request is in the store after it, up to the clean-up goroutines of the tick. -/
+theorem c11_failed_load_global (le : ID → ID → Bool) (w : World) (orc : Orc) (client : String) (spec : CookieSpec)
+    (ip ua : String) (create : Bool)
+    (hlf : ¬ AllB isLoadFail (w.step le orc (.req client spec ip ua create)).2.evs) :
+    (w.step le orc (.req client spec ip ua create)).2.ret = some (.str "err") ∧
+    (w.step le orc (.req client spec ip ua create)).2.cookies = [] ∧
+    AllB isDel (w.step le orc (.req client spec ip ua create)).2.evs ∧
+    (w.step le orc (.req client spec ip ua create)).1.cur = none ∧
+    (w.step le orc (.req client spec ip ua create)).1.st.nextId = w.st.nextId := by
+  have hsk : w.skip = false := by
+    cases hs : w.skip with
+    | false => rfl
+    | true => rw [(step_skip_out le w orc _ hs).1] at hlf; exact absurd (AllB.nil _) hlf
+  rw [step_req le w orc client spec ip ua create hsk] at hlf ⊢
+  simp only at hlf ⊢
+  rw [(apiCall_out3 _ orc _ true).1] at hlf ⊢
+  have hlf' : ¬ AllB isLoadFail (start w.cfg (orcSt w orc) (reqOf1 w client spec ip ua create)).2.2 := by
+    intro h; exact hlf (fun e he => h e (List.mem_filter.1 he).1)
+  obtain ⟨⟨m, hm⟩, hdel, hck, hn⟩ := start_failed_load_quiet w.cfg (orcSt w orc) _ hlf'
+  refine ⟨?_, ?_, ?_, ?_, ?_⟩
+  · rw [(apiCall_out _ orc _ true).1]
+    show some (resStr (start w.cfg (orcSt w orc) (reqOf1 w client spec ip ua create)).2.1).1 = _
+    rw [hm]; rfl
+  · rw [(apiCall_out _ orc _ true).2.1]
+    show (start w.cfg (orcSt w orc) (reqOf1 w client spec ip ua create)).2.2.filter isCookie = []
+    rw [List.filter_eq_nil_iff]
+    intro e he; rw [hck e he]; simp
+  · intro e he; exact hdel e (List.mem_filter.1 he).1
+  · rw [apiCall_fst]
+    show curOf (start w.cfg (orcSt w orc) (reqOf1 w client spec ip ua create)).2.1 = none
+    rw [hm]; rfl
+  · rw [apiCall_st, advance_nextId]
+    have : ∀ (w' : World) s1 evs, (apiMid w' s1 evs).nextId = s1.nextId := by
+      intro w' s1 evs; unfold apiMid; cases apiFrz w' evs <;> rfl
+    rw [this]
+    exact hn
+
+/-! ## 5. coherence with faults
+
+### 5.1 the per-key formulation is FALSE in the model
+
+The intended statement — "`dirty` = the ids whose cached object disagrees with the store; an id enters this set only in
+an operation that reported a failure", equivalently the ghost version "an id is marked when an operation on it fails
+and cleared by its next successful save; clean cached ids agree with the store" — does not hold for this model (nor,
+the model being the image of `cache.go`/`session.go`, for the library). A failure can leave TWO objects for one id
+without any disagreement yet, and the next, fault-free and successful, call creates the disagreement:
+
+`pkScript` (cache size 1, two sessions `gen 0`/`gen 1`, stale user-index entries listing both for `u`, the user listing
+sorted so that `gen 1` comes first): request 7 is served with object 2 for `gen 0`. `LogIn(u, exclusive)` (step 8)
+loads `gen 1` (evicting `gen 0`), then — `gen 0` not being cached any more — loads a SECOND object 4 for `gen 0`, whose
+write-through save fails: `LogIn` returns the error. At this boundary every cached object agrees with its record (the
+state-based dirty set is empty; the ghost has `gen 0` marked). Step 9, `Set("k", 1)` on the request's object 2, succeeds
+without any fault and saves `gen 0` (the ghost clears `gen 0`) — and now the CACHED object 4 disagrees with the record:
+`gen 0` entered the state-based dirty set in a step with `faulted = 0`, `ret = ok`, and the ghost invariant fails. -/
+
+def revLe : ID → ID → Bool := fun a b => idLe b a
+
+def pkScript : List (Orc × Op) :=
+  [ ({}, .cfg "maxCache" 1),
+    ({}, .req "a" .none "1.2.3.4:5" "ua" true),
+    ({}, .endReq),
+    ({}, .req "b" .none "1.2.3.4:5" "ub" true),
+    ({}, .endReq),
+    ({}, .stale "u" (.gen 0)),
+    ({}, .stale "u" (.gen 1)),
+    ({}, .req "a" .jar "1.2.3.4:5" "ua" false),
+    ({ fails := [false, false, false, false, false, false, true] }, .h (.login "u" true)),
+    ({}, .h (.set "k" (.int 1))),
+    ({}, .endReq) ]
+
+def pkOut (n : Nat) : Out :=
+  match pkScript[n]? with
+  | some (o, op) => ((runHist revLe {} (pkScript.take n)).step revLe o op).2
+  | none => {}
+
+#guard (pkOut 8).ret == some (.str "err") && (pkOut 8).faulted == 1 && (pkOut 8).evs.getLast? == some (.saveFail (.gen 0))
+#guard cohB .gob (runHist revLe {} (pkScript.take 9)).st && wfB (runHist revLe {} (pkScript.take 9)).st  -- nothing dirty
+#guard (runHist revLe {} (pkScript.take 9)).cur == some 2 && (runHist revLe {} (pkScript.take 9)).st.cache == [(.gen 0, 4)]
+#guard (pkOut 9).ret == some (.str "ok") && (pkOut 9).faulted == 0                                       -- no failure
+#guard ((pkOut 9).evs.map (fun e => match e with | .save id _ => some id | _ => none)) == [some (.gen 0)] -- saved
+#guard !cohB .gob (runHist revLe {} (pkScript.take 10)).st                                              -- … and dirty
+/-- the side conditions of the epoch theorem below hold for the script (so it is no artefact of an ill-formed history) -/
+example : HistOKs pkScript := histOKs_of_b (by decide)
+
+/-! ### 5.2 what does hold: coherence is lost only in a step that shows a fault, and regained at the next empty cache
+
+`taint`: a Boolean ghost computed from the outputs and two observable facts of the boundary (cache empty, no request
+session): set by every step that shows a failed persistence call (`Out.faulted > 0`), reset when the cache is empty
+and no request holds a session (after `dropcache`/`PurgeSessions`/a restart between requests, or simply before the first
+request). Invariant: at every untainted boundary the FULL fault-free invariant `WInv` (coherence of every cached entry,
+`wf`, the handle invariant) holds. -/
+
+/-- the shape facts of `WInv` that do not depend on faults -/
+structure WShape (w : World) : Prop where
+  cur_req : ∀ h, w.cur = some h → w.inReq = true
+  skip_crashed : w.skip = true → w.crashed = true
+
+theorem finW_shape {w : World} (hw : WShape w) : WShape (finW w) := by
+  unfold finW
+  split
+  · exact ⟨hw.cur_req, by intro h; simp at h⟩
+  · exact hw
+
+theorem apiCall_shape (w : World) (orc : Orc) (run : State → State × RetV × Option String × List Ev) (b : Bool)
+    (hw : WShape w) : WShape (apiCall w orc run b).1 := by
+  rw [apiCall_fst]
+  refine ⟨hw.cur_req, ?_⟩
+  intro h
+  simp only [Bool.or_eq_true, Bool.and_eq_true] at h ⊢
+  rcases h with h | h
+  · exact Or.inl (hw.skip_crashed h)
+  · exact Or.inr h.1
+
+theorem shape_step (le : ID → ID → Bool) (w : World) (orc : Orc) (op : Op) (hw : WShape w) : WShape (w.step le orc op).1 := by
+  by_cases hsk : w.skip = true
+  · by_cases he : op = .endReq
+    · subst he
+      unfold World.step
+      simp only [Bool.not_true, Bool.and_false, Bool.false_eq_true, if_false, finish_fst]
+      exact finW_shape ⟨by intro h hh; simp at hh, by intro h; simp at h⟩
+    · rw [step_skip le w orc op hsk he]; exact hw
+  · have hsk' : w.skip = false := by simpa using hsk
+    unfold World.step
+    cases op with
+    | req client spec ip ua create =>
+      simp only [hsk', Bool.false_and, Bool.false_eq_true, if_false]
+      exact apiCall_shape _ orc _ true ⟨by intro _ _; rfl, by intro h; simp at h⟩
+    | h hop =>
+      simp only [hsk', Bool.false_and, Bool.false_eq_true, if_false]
+      cases hc : w.cur with
+      | none => exact hw
+      | some h => exact apiCall_shape w orc _ true hw
+    | endReq =>
+      simp only [hsk', Bool.false_and, Bool.false_eq_true, if_false, finish_fst]
+      exact finW_shape ⟨by intro h hh; simp at hh, by intro h; simp at h⟩
+    | crash =>
+      simp only [hsk', Bool.false_and, Bool.false_eq_true, if_false, finish_fst]
+      exact finW_shape ⟨hw.cur_req, fun _ => rfl⟩
+    | purge =>
+      simp only [hsk', Bool.false_and, Bool.false_eq_true, if_false, finish_fst]
+      exact finW_shape (apiCall_shape w orc _ false hw)
+    | logoutUser uid =>
+      simp only [hsk', Bool.false_and, Bool.false_eq_true, if_false, finish_fst]
+      exact finW_shape (apiCall_shape w orc _ false hw)
+    | refresh uid =>
+      simp only [hsk', Bool.false_and, Bool.false_eq_true, if_false, finish_fst]
+      exact finW_shape (apiCall_shape w orc _ false hw)
+    | _ =>
+      simp only [hsk', Bool.false_and, Bool.false_eq_true, if_false, finish_fst]
+      exact finW_shape ⟨hw.cur_req, by intro h; simp [hsk'] at h⟩
+
+/-- an empty cache and no request session: the structural invariant is the whole invariant -/
+theorem winv_of_empty {c : Codec} {w : World} (hs : WSInv c w) (hsh : WShape w) (hc : w.st.cache = []) (hcur : w.cur = none) :
+    WInv c w := by
+  refine ⟨hs.codec, hs.inv.sok, hsh.cur_req, hsh.skip_crashed, fun _ => ⟨?_, by intro h hh; rw [hcur] at hh; cases hh⟩⟩
+  exact ⟨hs.inv.cnodup, hs.inv.valid, (by intro id h hm; rw [hc] at hm; cases hm), (by intro id h hm; rw [hc] at hm; cases hm),
+    hs.inv.ckeys, fun id h hm => hs.inv.hrefs h (hs.inv.valid id h hm), hs.inv.sok, hs.inv.tkeys⟩
+
+/-- the taint after a step: observable from the output (`faulted`) and the boundary (`cache`, `cur`, both in the dump) -/
+def taintStep (t : Bool) (w' : World) (o : Out) : Bool :=
+  if w'.st.cache.isEmpty && w'.cur.isNone then false else t || decide (o.faulted > 0)
+
+/-- world and taint along a history -/
+def runTaint (le : ID → ID → Bool) : World × Bool → List (Orc × Op) → World × Bool
+  | p, [] => p
+  | (w, t), (o, op) :: r => runTaint le ((w.step le o op).1, taintStep t (w.step le o op).1 (w.step le o op).2) r
+
+theorem runTaint_fst (le : ID → ID → Bool) (hist : List (Orc × Op)) (w : World) (t : Bool) :
+    (runTaint le (w, t) hist).1 = runHist le w hist := by
+  induction hist generalizing w t with
+  | nil => rfl
+  | cons p r ih => obtain ⟨o, op⟩ := p; exact ih _ _
+
+/-- `HistOK` minus the no-fail part of `OrcOK`: the oracles are arbitrary -/
+def HistOKf (le : ID → ID → Bool) (w : World) : List (Orc × Op) → Prop
+  | [] => True
+  | (o, op) :: r => OpOK le w op ∧ HistOKf le (w.step le o op).1 r
+
+theorem opOKs_of_opOK {le : ID → ID → Bool} {w : World} {op : Op} (h : OpOK le w op) : OpOKs op := by
+  cases op <;> first | trivial | exact h
+
+/-- the epoch invariant -/
+structure CohE (c : Codec) (w : World) (t : Bool) : Prop where
+  s : WSInv c w
+  shape : WShape w
+  coh : t = false → WInv c w
+
+theorem cohE_step {c : Codec} (le : ID → ID → Bool) (w : World) (t : Bool) (orc : Orc) (op : Op) (h : CohE c w t)
+    (hop : OpOK le w op) :
+    CohE c (w.step le orc op).1 (taintStep t (w.step le orc op).1 (w.step le orc op).2) := by
+  have hs := sinv_step le w orc op h.s (opOKs_of_opOK hop)
+  have hsh := shape_step le w orc op h.shape
+  refine ⟨hs, hsh, ?_⟩
+  unfold taintStep
+  split
+  · rename_i he
+    simp only [Bool.and_eq_true, List.isEmpty_iff, Option.isNone_iff_eq_none] at he
+    intro _; exact winv_of_empty hs hsh he.1 he.2
+  · intro ht
+    simp only [Bool.or_eq_false_iff, decide_eq_false_iff_not, Nat.not_lt, Nat.le_zero_eq] at ht
+    exact step_inv_of_not_faulted le w orc op (h.coh ht.1) hop ht.2
+
+theorem cohE_hist {c : Codec} (le : ID → ID → Bool) (hist : List (Orc × Op)) (w : World) (t : Bool) (h : CohE c w t)
+    (hok : HistOKf le w hist) : CohE c (runTaint le (w, t) hist).1 (runTaint le (w, t) hist).2 := by
+  induction hist generalizing w t with
+  | nil => exact h
+  | cons p r ih =>
+    obtain ⟨o, op⟩ := p
+    exact ih _ _ (cohE_step le w t o op h hok.1) hok.2
+
+/-- **`cohf_all_histories_partial`.** For EVERY history whose requests are well-formed (`HistOKf` = `HistOK` without the
+no-fault condition: no codec switch, `LogOut(uid)`/`RefreshUser` from outside a request do not list the request's
+session) and EVERY fault oracle: at every boundary at which the taint is off, the full invariant `WInv` holds — every
+cached object carries its key as id and agrees on `ess` with the record stored under it, and the request's handle is
+the cached object for its id. The taint is switched on only by a step that SHOWS a failed persistence call and off by
+the next boundary with an empty cache and no request session.
+
+`_partial`: the dirtiness is one bit for the whole cache, not a set of ids. The per-id refinement asked for
+(`k ∈ dirty ∨ stored record agrees`, with ids entering `dirty` only in failing operations on them and leaving it at their
+next successful save) is FALSE in this model: `pkScript` above. What a true per-id statement would have to add is a
+second way of being dirty — "another reachable object (the request's handle, or an object cached under an older id after
+a failed `RegenerateID`, `wf_fails_under_faults`) claims this id" — whose clearing is not observable from saves. -/
+theorem cohf_all_histories_partial (le : ID → ID → Bool) (cfg : Cfg) (ck : CookieCfg) (hist : List (Orc × Op))
+    (hok : HistOKf le { cfg := cfg, ck := ck } hist) :
+    CohE cfg.codec (runHist le { cfg := cfg, ck := ck } hist) (runTaint le ({ cfg := cfg, ck := ck }, false) hist).2 := by
+  have := cohE_hist le hist { cfg := cfg, ck := ck } false
+    ⟨init_wsinv cfg ck, ⟨by intro h hh; simp at hh, by intro h; simp at h⟩, fun _ => init_winv cfg ck⟩ hok
+  rwa [runTaint_fst] at this
+
+/-- **no silent loss of coherence**: one step from a coherent boundary, any oracle. Either the step shows a failed
+persistence call (`faulted > 0` in its output), or the full invariant holds again afterwards. -/
+theorem coh_lost_only_by_shown_fault {c : Codec} (le : ID → ID → Bool) (w : World) (orc : Orc) (op : Op) (hw : WInv c w)
+    (hop : OpOK le w op) : (w.step le orc op).2.faulted > 0 ∨ WInv c (w.step le orc op).1 := by
+  cases hf : (w.step le orc op).2.faulted with
+  | zero => exact Or.inr (step_inv_of_not_faulted le w orc op hw hop hf)
+  | succ n => exact Or.inl (Nat.succ_pos n)
+
+/-- … spelled out for the cache entries: at an untainted boundary with the process alive, every cached object agrees
+with its stored record on user, creation time, reference and data (C09's crash equivalence), faults before or not. -/
+theorem c09_untainted_crash_equiv (le : ID → ID → Bool) (cfg : Cfg) (ck : CookieCfg) (hist : List (Orc × Op))
+    (hok : HistOKf le { cfg := cfg, ck := ck } hist)
+    (ht : (runTaint le ({ cfg := cfg, ck := ck }, false) hist).2 = false)
+    (hsk : (runHist le { cfg := cfg, ck := ck } hist).skip = false)
+    (id : ID) (h : Nat) (hm : (id, h) ∈ (runHist le { cfg := cfg, ck := ck } hist).st.cache) :
+    ((runHist le { cfg := cfg, ck := ck } hist).st.obj h).id = id ∧
+    ∃ r, lookup id (runHist le { cfg := cfg, ck := ck } hist).st.store = some r ∧
+      ess (enc cfg.codec ((runHist le { cfg := cfg, ck := ck } hist).st.obj h)) = ess r := by
+  have hI := (((cohf_all_histories_partial le cfg ck hist hok).coh ht).good hsk).1
+  exact ⟨hI.wf id h hm (by simp), hI.coh id h hm (by simp)⟩
+
+/-! ## 6. non-vacuity of §2–§5 on `fxScript` (failing save, load, delete, user listing, rotation; a crash point) -/
+
+theorem histOKf_of_plain (le : ID → ID → Bool) (hist : List (Orc × Op)) (w : World) (h : ∀ p ∈ hist, p.2.plain = true) :
+    HistOKf le w hist := by
+  induction hist generalizing w with
+  | nil => trivial
+  | cons p r ih =>
+    obtain ⟨o, op⟩ := p
+    have h2 := h (o, op) List.mem_cons_self
+    refine ⟨?_, ih _ (fun p hp => h p (List.mem_cons_of_mem _ hp))⟩
+    cases op <;> first | trivial | (simp [Op.plain] at h2)
+
+theorem fxScript_okf (w : World) : HistOKf idLe w fxScript := histOKf_of_plain idLe fxScript w (by decide)
+
+/-- the epoch theorem applies to the faulty script, at the end and at every boundary -/
+example : CohE .gob (runHist idLe {} fxScript) (runTaint idLe ({}, false) fxScript).2 :=
+  cohf_all_histories_partial idLe {} {} fxScript (fxScript_okf _)
+
+/-- the taint along the script: on after the failed `Set` (1), off after `dropcache` between requests (4), untouched by
+the failed load of request 5 … which ends with an empty cache and no session, on again from the failed `Destroy` (8) to
+the restart (16) -/
+def fxTaint (n : Nat) : Bool := (runTaint idLe ({}, false) (fxScript.take n)).2
+#guard (List.range 18).map fxTaint ==
+  [false, false, true, true, true, false, false, false, false, true, true, true, true, true, true, true, true, false]
+-- … and at the untainted boundaries the cache does agree with the store, at tainted ones it need not
+#guard (List.range 18).all (fun n => fxTaint n || cohB .gob (runHist idLe {} (fxScript.take n)).st)
+#guard !cohB .gob (runHist idLe {} (fxScript.take 2)).st     -- after the failed `Set` the cached object is ahead of the store
+
+/-- `c09_ack_saved_global` applies to step 2 (the `Set` that succeeds after the `Set` whose save failed): the id that was
+dirty is clean again -/
+example : Saved .gob (runHist idLe {} (fxScript.take 3)).st 0 := by
+  have hw := sinv_every_boundary idLe {} {} fxScript fxScript_ok 2
+  have h := c09_ack_saved_global idLe (runHist idLe {} (fxScript.take 2)) {} (.set "k" (.int 2)) 0 hw
+    (by decide +kernel) (by decide +kernel) trivial (by decide +kernel)
+    (by
+      have hbg : ((runHist idLe {} (fxScript.take 2)).step idLe {} (.h (.set "k" (.int 2)))).2.bg = [] := by decide +kernel
+      intro t; rw [hbg]; simp)
+  exact h
+#guard !cohB .gob (runHist idLe {} (fxScript.take 2)).st && cohB .gob (runHist idLe {} (fxScript.take 3)).st
+
+/-- `c11_failed_load_global` applies to step 5 (the request whose load fails) -/
+example :
+    ((runHist idLe {} (fxScript.take 5)).step idLe { fails := [true] } (.req "a" .jar "1.2.3.4:5" "ua" false)).2.ret = some (.str "err") ∧
+    ((runHist idLe {} (fxScript.take 5)).step idLe { fails := [true] } (.req "a" .jar "1.2.3.4:5" "ua" false)).2.cookies = [] :=
+  let h := c11_failed_load_global idLe (runHist idLe {} (fxScript.take 5)) { fails := [true] } "a" .jar "1.2.3.4:5" "ua" false
+    (by
+      intro hall
+      have hm : Ev.loadFail (.gen 0) ∈
+          ((runHist idLe {} (fxScript.take 5)).step idLe { fails := [true] } (.req "a" .jar "1.2.3.4:5" "ua" false)).2.evs := by
+        decide +kernel
+      have := hall _ hm
+      simp [isLoadFail] at this)
+  ⟨h.1, h.2.1⟩
+
+/-- `c11_no_silent_loss` applies to every step of the script: the record of `gen 0`,
+present from step 1 on, survives the failed save, the failed load, the failed delete, the failed listing … -/
+example (n : Nat) (o : Orc) (op : Op)
+    (r : Rec) (hl : lookup (.gen 0) (runHist idLe {} (fxScript.take n)).st.store = some r)
+    (hk : ∀ e ∈ ((runHist idLe {} (fxScript.take n)).step idLe o op).2.evs ++
+                ((runHist idLe {} (fxScript.take n)).step idLe o op).2.bg, KeepsKey (.gen 0) e) :
+    (lookup (.gen 0) ((runHist idLe {} (fxScript.take n)).step idLe o op).1.st.store).isSome = true :=
+  c11_no_silent_loss idLe _ o op (.gen 0) r hl hk
+#guard (List.range 18).all (fun n => n == 0 || (lookup (ID.gen 0) (runHist idLe {} (fxScript.take n)).st.store).isSome)
+
 end Sx.Glob
+
+/-
+#print axioms Sx.Glob.sinv_step
+#print axioms Sx.Glob.sinv_all_histories
+#print axioms Sx.Glob.c09_ack_saved_global
+#print axioms Sx.Glob.c11_no_silent_loss
+#print axioms Sx.Glob.c11_del_only_by_invalidation
+#print axioms Sx.Glob.c11_failed_load_global
+#print axioms Sx.Glob.start_failed_load_quiet
+#print axioms Sx.Glob.cohf_all_histories_partial
+each: [propext, Classical.choice, Quot.sound]
+-/
